@@ -449,6 +449,12 @@ func (r *runner) chunkAfterOp(o Op, m string, p chunkPre, mPending, mSeq string)
 			for k < len(rest) && k < len(E) && rest[k] == E[k] {
 				k++
 			}
+			// (round 6) not greedily: the trailer starts with six zero bytes, and a frame whose checksum starts with
+			// 0x00 shares them — "nothing of the frame, the whole trailer" must not be read as "one byte of the frame
+			// and a wrong trailer" (a false alarm met with seed 3: 1 in 256 of the trailer-only states)
+			for k > 0 && !(len(rest)-k <= 11 && bytes.Equal(rest[k:], TR[:len(rest)-k])) {
+				k--
+			}
 			tr := rest[k:]
 			good = len(tr) <= 11 && bytes.Equal(tr, TR[:len(tr)])
 			switch {
@@ -944,7 +950,13 @@ func (c *chunkCtx) boundaryCase(t1 int, full bool) {
 			})
 		}
 		// junk and a torn EOF trailer after the complete record: the batch in flight is whole
-		for _, extra := range [][]byte{c.rng.Bytes(1 + c.rng.Intn(30)), trailerOf(1)[:1+c.rng.Intn(10)], {0, 0, 0, 0, 0, 0, 0}, make([]byte, 19)} {
+		// (round 6: EVERY length 1 … 11 of the trailer — the space is small, `chunk_trailer_cut_anywhere`)
+		extras := [][]byte{c.rng.Bytes(1 + c.rng.Intn(30)), {0, 0, 0, 0, 0, 0, 0}, make([]byte, 19)}
+		for t := 1; t <= 11; t++ {
+			extras = append(extras, trailerOf(1)[:t])
+			c.res.Hit(fmt.Sprintf("chunk-damage:torn-trailer-%d", t))
+		}
+		for _, extra := range extras {
 			b := append(append([]byte(nil), cur...), extra...)
 			var all []string
 			all = append(append(all, acked...), bs[k].canon...)
